@@ -5,6 +5,7 @@
 mod bits;
 mod budget;
 mod findings;
+mod jets;
 mod prog;
 mod util;
 
@@ -37,6 +38,7 @@ fn main() {
             "budget" => budget::run(&toks[1..]),
             "findings" => findings::run(&toks[1..]),
             "prog" => prog::run(&toks[1..]),
+            "jets" => jets::run(&toks[1..]),
             other => {
                 eprintln!("unknown command {}", other);
                 std::process::exit(2);
